@@ -38,8 +38,9 @@ import (
 
 var errInjected = errors.New("verif: injected I/O error")
 
-// errCrash is the panic value of a simulated process crash.
-var errCrash = errors.New("verif: simulated crash of the package manager")
+// errDead is what every file system and API operation returns once the
+// simulated package manager process has crashed (see faultFs.dead).
+var errDead = errors.New("verif: the package manager process has crashed")
 
 // recCache is the package cache the reconcilers use: the real FsPackageCache,
 // with the result of every Store recorded.
@@ -236,7 +237,7 @@ type fsPlan struct {
 	CreateFails bool
 	// RemoveFails: removing a cache file fails (the reconciler's cleanup is
 	// best effort: the error is only logged). RemoveCrashes: the process dies
-	// at that point instead (panic with errCrash, recovered by env.reconcile).
+	// at that point instead: the fs goes dead (see faultFs.dead).
 	RemoveFails   bool
 	RemoveCrashes bool
 	WriteFailAt   int // -1: none; the file accepts this many bytes, then Write fails
@@ -250,7 +251,49 @@ type faultFs struct {
 	afero.Fs
 	mu      sync.Mutex
 	plan    fsPlan
-	written int // bytes written through Create()d files since the plan was set (diagnostic)
+	written int  // bytes written through Create()d files since the plan was set (diagnostic)
+	dead    bool // the process has crashed, see isDead
+}
+
+// Crash model. A crash of the package manager is modelled as the process's
+// view of the world going DEAD at the crash point, whichever goroutine and call
+// site reaches it: that file system call and every later one return errDead
+// and write nothing, every later API call (hookClient) and Establish fails
+// without effect. The reconcile then runs to its end on errors only; its
+// in-memory outcome is discarded and revive() stands for the restart.
+func (f *faultFs) isDead() bool {
+	f.mu.Lock()
+	defer f.mu.Unlock()
+	return f.dead
+}
+
+func (f *faultFs) die() {
+	f.mu.Lock()
+	f.dead = true
+	f.mu.Unlock()
+}
+
+// revive restarts the process; it reports whether it had crashed.
+func (f *faultFs) revive() bool {
+	f.mu.Lock()
+	defer f.mu.Unlock()
+	d := f.dead
+	f.dead = false
+	return d
+}
+
+func (f *faultFs) Stat(name string) (os.FileInfo, error) {
+	if f.isDead() {
+		return nil, errDead
+	}
+	return f.Fs.Stat(name)
+}
+
+func (f *faultFs) Rename(oldname, newname string) error {
+	if f.isDead() {
+		return errDead
+	}
+	return f.Fs.Rename(oldname, newname)
 }
 
 func newFaultFs() *faultFs { return &faultFs{Fs: afero.NewMemMapFs(), plan: noFsFault()} }
@@ -263,6 +306,9 @@ func (f *faultFs) set(p fsPlan) {
 }
 
 func (f *faultFs) Create(name string) (afero.File, error) {
+	if f.isDead() {
+		return nil, errDead
+	}
 	f.mu.Lock()
 	p := f.plan
 	f.mu.Unlock()
@@ -280,8 +326,12 @@ func (f *faultFs) Remove(name string) error {
 	f.mu.Lock()
 	p := f.plan
 	f.mu.Unlock()
+	if f.isDead() {
+		return errDead
+	}
 	if p.RemoveCrashes {
-		panic(errCrash)
+		f.die()
+		return errDead
 	}
 	if p.RemoveFails {
 		return errInjected
@@ -290,6 +340,9 @@ func (f *faultFs) Remove(name string) error {
 }
 
 func (f *faultFs) Open(name string) (afero.File, error) {
+	if f.isDead() {
+		return nil, errDead
+	}
 	f.mu.Lock()
 	p := f.plan
 	f.mu.Unlock()
@@ -310,6 +363,9 @@ type faultFile struct {
 }
 
 func (f *faultFile) Write(p []byte) (int, error) {
+	if f.fs.isDead() {
+		return 0, errDead
+	}
 	if f.writeLeft < 0 {
 		n, err := f.File.Write(p)
 		f.fs.mu.Lock()
@@ -328,6 +384,9 @@ func (f *faultFile) Write(p []byte) (int, error) {
 }
 
 func (f *faultFile) Read(p []byte) (int, error) {
+	if f.fs.isDead() {
+		return 0, errDead
+	}
 	if f.readLeft < 0 {
 		return f.File.Read(p)
 	}
@@ -344,6 +403,10 @@ func (f *faultFile) Read(p []byte) (int, error) {
 
 func (f *faultFile) Close() error {
 	err := f.File.Close()
+	if f.fs.isDead() {
+		f.closed = true
+		return errDead
+	}
 	if f.closeFails && !f.closed {
 		f.closed = true
 		return errInjected
@@ -395,11 +458,15 @@ type estCall struct {
 }
 
 type recEstablisher struct {
+	dead  func() bool // the process has crashed: nothing is established any more
 	mu    sync.Mutex
 	calls []estCall
 }
 
 func (e *recEstablisher) Establish(_ context.Context, objects []runtime.Object, parent v1.PackageRevision, control bool) ([]xpv1.TypedReference, error) {
+	if e.dead != nil && e.dead() {
+		return nil, errDead
+	}
 	e.mu.Lock()
 	defer e.mu.Unlock()
 	e.calls = append(e.calls, estCall{
@@ -489,6 +556,7 @@ func (d *recDeps) take() []depCall {
 // inside fn are neither counted nor hooked). Unarmed it only counts calls.
 type hookClient struct {
 	client.Client
+	dead func() bool // the process has crashed: no API call has an effect any more
 	mu   sync.Mutex
 	n    int
 	at   int
@@ -532,31 +600,49 @@ func (h *hookClient) before() {
 }
 
 func (h *hookClient) Get(ctx context.Context, key client.ObjectKey, obj client.Object, opts ...client.GetOption) error {
+	if h.dead != nil && h.dead() {
+		return errDead
+	}
 	h.before()
 	return h.Client.Get(ctx, key, obj, opts...)
 }
 
 func (h *hookClient) List(ctx context.Context, list client.ObjectList, opts ...client.ListOption) error {
+	if h.dead != nil && h.dead() {
+		return errDead
+	}
 	h.before()
 	return h.Client.List(ctx, list, opts...)
 }
 
 func (h *hookClient) Create(ctx context.Context, obj client.Object, opts ...client.CreateOption) error {
+	if h.dead != nil && h.dead() {
+		return errDead
+	}
 	h.before()
 	return h.Client.Create(ctx, obj, opts...)
 }
 
 func (h *hookClient) Delete(ctx context.Context, obj client.Object, opts ...client.DeleteOption) error {
+	if h.dead != nil && h.dead() {
+		return errDead
+	}
 	h.before()
 	return h.Client.Delete(ctx, obj, opts...)
 }
 
 func (h *hookClient) Update(ctx context.Context, obj client.Object, opts ...client.UpdateOption) error {
+	if h.dead != nil && h.dead() {
+		return errDead
+	}
 	h.before()
 	return h.Client.Update(ctx, obj, opts...)
 }
 
 func (h *hookClient) Patch(ctx context.Context, obj client.Object, p client.Patch, opts ...client.PatchOption) error {
+	if h.dead != nil && h.dead() {
+		return errDead
+	}
 	h.before()
 	return h.Client.Patch(ctx, obj, p, opts...)
 }
@@ -569,16 +655,25 @@ type hookSub struct {
 }
 
 func (s *hookSub) Create(ctx context.Context, obj, sub client.Object, opts ...client.SubResourceCreateOption) error {
+	if s.h.dead != nil && s.h.dead() {
+		return errDead
+	}
 	s.h.before()
 	return s.w.Create(ctx, obj, sub, opts...)
 }
 
 func (s *hookSub) Update(ctx context.Context, obj client.Object, opts ...client.SubResourceUpdateOption) error {
+	if s.h.dead != nil && s.h.dead() {
+		return errDead
+	}
 	s.h.before()
 	return s.w.Update(ctx, obj, opts...)
 }
 
 func (s *hookSub) Patch(ctx context.Context, obj client.Object, p client.Patch, opts ...client.SubResourcePatchOption) error {
+	if s.h.dead != nil && s.h.dead() {
+		return errDead
+	}
 	s.h.before()
 	return s.w.Patch(ctx, obj, p, opts...)
 }
@@ -661,12 +756,13 @@ func newEnv(verification bool) *env {
 	if verification {
 		e.flags.Enable(features.EnableAlphaSignatureVerification)
 	}
+	e.est.dead = e.fs.isDead
 	e.cache = xpkg.NewFsPackageCache(cacheDir, e.fs)
 	e.rcache = &recCache{PackageCache: e.cache}
 	_ = e.fs.Fs.MkdirAll(cacheDir, 0o755)
 	for _, typ := range pkgTypes {
 		typ := typ
-		c := &hookClient{Client: e.sim.Client("revision-" + typ)}
+		c := &hookClient{Client: e.sim.Client("revision-" + typ), dead: e.fs.isDead}
 		e.hooks[typ] = c
 		mgr := &fakeManager{c: c}
 		e.recs[typ] = revision.NewReconciler(mgr,
